@@ -73,7 +73,8 @@ def Sym(suffix):
 
 
 def Call(suffix, *argpats):
-    """call whose callee path ends with ::suffix; argpats (optional) match positionally"""
+    """call whose callee path ends with ::suffix; argpats (optional) match positionally (either order for the two
+    operands of commutative integer methods such as min / wrapping_add / overflowing_add)"""
     def m(e):
         if not isinstance(e, tuple) or e[0] != "call":
             return False
@@ -82,7 +83,11 @@ def Call(suffix, *argpats):
         if argpats:
             if len(e[2]) < len(argpats):
                 return False
-            return all(p(a) for p, a in zip(argpats, e[2]))
+            if all(p(a) for p, a in zip(argpats, e[2])):
+                return True
+            if len(argpats) == 2 and len(e[2]) == 2 and suffix.split("::")[-1] in COMMUTATIVE_CALLS:
+                return argpats[0](e[2][1]) and argpats[1](e[2][0])
+            return False
         return True
     m.desc = "call %s" % suffix
     return m
@@ -113,7 +118,16 @@ def Index(base=None, idx=None):
     return m
 
 
-def Bin(op, a=None, b=None, commutative=False):
+COMMUTATIVE_OPS = ("Add", "Mul", "BitAnd", "BitOr", "BitXor", "Eq", "Ne")
+COMMUTATIVE_CALLS = ("min", "max", "wrapping_add", "wrapping_mul", "overflowing_add", "overflowing_mul", "checked_add", "checked_mul",
+                     "saturating_add", "saturating_mul")
+
+
+def Bin(op, a=None, b=None, commutative=None):
+    """binary operator term; operand order is ignored for commutative operators unless commutative=False is given"""
+    if commutative is None:
+        commutative = op in COMMUTATIVE_OPS
+
     def m(e):
         if not (isinstance(e, tuple) and e[0] == "bin" and e[1] == op):
             return False
@@ -194,3 +208,30 @@ def AnyLocal():
 
 def Same(ref):
     return lambda e: e == ref
+
+
+def RangeP(lo, hi_inclusive):
+    """`lo ..= hi`  or  `lo .. hi + 1`"""
+    def m(e):
+        if not (isinstance(e, tuple) and e[0] == "agg" and len(e) > 2 and len(e[2]) >= 2):
+            return False
+        if e[1].endswith("RangeInclusive"):
+            return lo(e[2][0]) and hi_inclusive(e[2][1])
+        if e[1].endswith("ops::Range"):
+            return lo(e[2][0]) and Bin("Add", hi_inclusive, Lit(1))(e[2][1])
+        return False
+    return m
+
+
+_SWAPPED = {"Eq": "Eq", "Ne": "Ne", "Lt": "Gt", "Gt": "Lt", "Le": "Ge", "Ge": "Le"}
+
+
+def Cmp(op, a=None, b=None):
+    """comparison term `a <op> b`, also when written with the operands exchanged (`b <swapped op> a`)"""
+    def m(e):
+        if not (isinstance(e, tuple) and e[0] == "bin"):
+            return False
+        if e[1] == op and (a is None or a(e[2])) and (b is None or b(e[3])):
+            return True
+        return e[1] == _SWAPPED.get(op) and (a is None or a(e[3])) and (b is None or b(e[2]))
+    return m
